@@ -7,7 +7,7 @@
    valid_tbl tbl says it is a finite partial bijection between non-empty names
    and positive uint32 indices.  A result `Ret None` is Go's nil; `Panic` is a
    Go panic. *)
-From Coq Require Import ZArith List.
+From Coq Require Import ZArith List Lia.
 From GV Require Import Lib.Trace Model.SockAddr Proofs.SockAddrProofs.
 Import ListNotations.
 Close Scope string_scope.
